@@ -144,7 +144,7 @@ def run_dasl(ctx, args, outname, cpu_seconds=20):
 LINE_RE = re.compile(r'^(?:([^\s:;]+):)?[ \t]+(\S.*?)[ \t]*;((?: [0-9A-Fa-f]{2})+)[ \t]*$')
 ORG_RE = re.compile(r'^[ \t]+org[ \t]+(\S+)', re.I)
 AREA_RE = re.compile(r'^[ \t]*;[ \t]*([0-9A-Fa-f]+)\.\.\.([0-9A-Fa-f]+) \((code|data)\)[ \t]*$')
-LABEL_RE = re.compile(r'\b(?:lab|sub|subv)_[0-9A-Fa-f]{4}\b')
+LABEL_RE = re.compile(r'\b(?:lab|sub|subv)_[0-9A-Fa-f]{4}(?![0-9A-Fa-f])')
 
 
 def parse_number(tok):
@@ -1099,8 +1099,25 @@ def judge(ctx, cpu, tag, route, args, entries, mem, gt, items, lower, seams=()):
             return 'load:%s:instruction-across-two-adjacent-files-read-wrongly' % route
         return 'load:%s:dasl-works-on-other-bytes-than-the-loaded-image' % route
 
-    def stray_key(d):
+    def stray_key(d, depth=0):
         p = culprit.get(d.no)
+        # first line of this run of lines that are no instructions of the program
+        run = [y for y in lines if block_of[y.no] == block_of[d.no] and y.kind == 'stray' and y.addr <= d.addr
+               and (p is None or y.addr > p.addr)]
+        first_stray = min(run, key=lambda y: y.addr) if run else d
+        if depth < 4:
+            lo = p.addr if p is not None else first_stray.addr - 1
+            for y in lines:
+                if y.kind != 'stray' or y in run:
+                    continue
+                mo = LABEL_RE.search(y.text)
+                if mo:
+                    try:
+                        x = int(mo.group(0).split('_')[1], 16)
+                    except ValueError:
+                        continue
+                    if lo < x <= first_stray.addr:
+                        return stray_key(y, depth + 1)      # sent here by a line that is itself astray: name its origin
         if p is None:
             first = min((y for y in lines if block_of[y.no] == block_of[d.no]), key=lambda y: y.addr)
             if first.addr == 0 and (c['limit'] - 1) in gt and any(y.kind == 'gt' and y.addr + y.n == c['limit'] - 1 for y in lines):
